@@ -6,8 +6,11 @@
                reference (library verdicts recorded by the driver, RFC
                formulas and big-integer arithmetic evaluated here). *)
 From Coq Require Export String Ascii.
-From Sdns Require Export Common.Base Gen.C14 C14.Model.
+From Sdns Require Export Common.Base Gen.C14 C14.Model C14.Fast.
 Open Scope N_scope.
+
+(* Modular exponentiation is evaluated with [powmod_fast] (Fast.v: BigN limbs, proved equal to the
+   model's [powmod]; the *_pm_eq lemmas there carry the equality to every model function used below). *)
 
 (* compact literals: text and hexadecimal *)
 Definition bs (s : string) : list N := map N_of_ascii (list_ascii_of_string s).
@@ -118,7 +121,7 @@ Definition check_case (c : case) : bool :=
   | CaseRSAUsable n e got => Bool.eqb (usable_rsa n e) got
   | CaseRSAVerify n e alg hashed sg got _ =>
       match rsa_hash alg with
-      | Some (_, prefix) => Bool.eqb (rsa_verify n e prefix hashed sg) got
+      | Some (_, prefix) => Bool.eqb (rsa_verify_with powmod_fast n e prefix hashed sg) got
       | None => false
       end
   | CaseName s zone n canon fq cnt prev inzone wire =>
@@ -131,12 +134,12 @@ Definition check_case (c : case) : bool :=
   | CaseProbe k s rrset got lib =>
       (signature_binding k s rrset =? got) && opt_eqb Bool.eqb (lib_preflight k s rrset) lib
   | CaseVerify k s rrset o got _ _ _ =>
-      let m := crypto_verify (orc_H o) (orc_ECP o) (orc_ECV o) (orc_EDV o) orc_LIBV k s rrset in
+      let m := crypto_verify_pm powmod_fast (orc_H o) (orc_ECP o) (orc_ECV o) (orc_EDV o) orc_LIBV k s rrset in
       if verify_signature_supported (k_alg k) then m =? got else negb (got =? 0)
   | CaseDSMatch k dt want o got _ => Bool.eqb (ds_digest_matches (orc_H o) k dt want) got
   | CaseVerifyDS keymap dss t got _ => bb_eqb (verify_ds (tbl_H t) keymap dss) got
   | CaseOneSig keys set s valid_now t ecp ev got _ _ =>
-      Bool.eqb (verify_one_sig (tbl_H t) (tbl_ECP ecp) (fun _ pub dg sg => negb (is_nil dg) && tbl_EV ev pub sg)
+      Bool.eqb (verify_one_sig_pm powmod_fast (tbl_H t) (tbl_ECP ecp) (fun _ pub dg sg => negb (is_nil dg) && tbl_EV ev pub sg)
                                (fun pub msg sg => existsb (fun o => list_eqb msg (o_msg o)) t && tbl_EV ev pub sg)
                                orc_LIBV keys set s valid_now) got
   end.
@@ -169,7 +172,7 @@ Definition spec_rsa_verify (n e alg : N) (hashed sg : list N) : bool :=
   let k := (N.size n + 7) / 8 in
   let t := spec_digestinfo alg ++ hashed in
   if (len sg =? k) && (os2ip sg <? n) && (len t + 11 <=? k)
-  then powmod (os2ip sg) e n =? os2ip ([0; 1] ++ repeat 255 (N.to_nat (k - len t - 3)) ++ [0] ++ t)
+  then powmod_fast (os2ip sg) e n =? os2ip ([0; 1] ++ repeat 255 (N.to_nat (k - len t - 3)) ++ [0] ++ t)
   else false.
 
 (* the observed signed data parsed back: RRSIG RDATA prefix, signer name, then
